@@ -273,7 +273,7 @@ def _scan_task(task):
 
 
 # ------------------------------------------------------------------ pools
-BIG = ("d2full", "d3")   # pools too large to scan through the plug-in completely: a seeded sample is scanned
+BIG = ("d2full", "d3", "inline-emph", "inline-links")   # pools too large to scan through the plug-in completely: a seeded sample is scanned
 
 
 def build_pools(ctx):
@@ -288,6 +288,9 @@ def build_pools(ctx):
         ("rules", pick(rule_docs, 150), ()),
         ("d2full", pick(docs.dn(2, docs.PREFIX, docs.BODY), 1200), ()),
         ("d3", pick(docs.dn(3, docs.PREFIX3, docs.BODY3), 800), ()),
+        ("families", pick(docs.families(), 200), ()),
+        ("inline-emph", pick(docs.inline_emph(), 1500), ()),
+        ("inline-links", pick(docs.inline_links(), 800), ()),
         ("ext-corpus", list(EXT_CORPUS), EXTS),
         ("ext-repo", pick(docs.repo_sources(), 200), EXTS),
         ("ext-rules", pick(rule_docs, 100), EXTS),
